@@ -54,7 +54,7 @@ def harness_cmds(cfile, h, outdir, reach=False, extra_defs=()):
         gi += [a, b]
     else:
         b = a
-    cb = ['cbmc', b] + CHECKS + ['--object-bits', h.get('objbits', '12'), '--json-ui', '--trace', '--verbosity', '6']
+    cb = ['cbmc', b] + CHECKS + ['--object-bits', h.get('objbits', '12'), '--json-ui', '--trace', '--verbosity', '6', '--sat-solver', h.get('sat', 'cadical')]
     if h.get('nan') == '1': cb += ['--nan-check']
     if 'unwind' in h: cb += ['--unwind', h['unwind'], '--unwinding-assertions']
     if h.get('cbmc'): cb += h['cbmc'].split(',')
